@@ -544,7 +544,7 @@ fn run(ctx: &Ctx) {
     // (b)
     let plans = [GenPlan {
         gen: "full",
-        cases: ctx.tier.pick(20_000, 400_000),
+        cases: ctx.tier.pick(60_000, 600_000),
         min_len: 0,
         max_len: ctx.tier.pick(1500, 4000),
     }];
